@@ -65,6 +65,13 @@ def check(prog: Program, run: Run) -> None:
     run.rule("C18.R7", "services / parameters of the other layer are matched by comparing short "
              "names, never by a keyed NamedItemList lookup with a raw short name", floor=1)
     common.g6_lookup_by_short_name(prog, run, "C18.R7", SCOPE)
+    run.rule("C18.R9", "what the overview counts was loaded faithfully: the NOT-INHERITED lists "
+             "that decide which DOPs / services / tables a layer shows are parsed from the "
+             "element paths they are written to (shared with C11.R7)", floor=5)
+    from ..jinjamodel import TemplateModel
+    from . import tagpaths
+    tagpaths.check(prog, TemplateModel(prog.repo), run, "C18.R9",
+                   only=lambda c: c == "ParentRef")
     run.rule("C18.R8", "the constant request prefix by which the compare tool recognises a renamed "
              "or re-added service covers every constant parameter and stops at the first "
              "non-constant one (shared with C06.R4)", floor=2)
